@@ -65,6 +65,7 @@ func (C10) Run(tp *tape.Tape) core.Result {
 	var names []string
 	dsSnap := []string{}
 	shared := false
+	litStr := tp.Bool()
 
 	render := func(name string) string { return s.Mem.LookUpGlobal(name).String() }
 	length := func(name string) int {
@@ -156,6 +157,28 @@ func (C10) Run(tp *tape.Tape) core.Result {
 			goto done
 		}
 	}
+	// literal-with-computed-elements functions: constant prefix of drawn length (0..9), 1..3 computed elements, optional constant tail
+	for i := 0; i < 3; i++ {
+		np, nc, nt := tp.Draw(10), 1+tp.Draw(3), tp.Draw(3)
+		var el []string
+		for j := 0; j < np; j++ {
+			if litStr {
+				el = append(el, fmt.Sprintf("\"p%d\"", j))
+			} else {
+				el = append(el, fmt.Sprint(j+1))
+			}
+		}
+		for j := 0; j < nc; j++ {
+			el = append(el, []string{"x", "y", "x"}[j])
+		}
+		for j := 0; j < nt; j++ {
+			el = append(el, fmt.Sprint(90+j))
+		}
+		litStr = !litStr
+		if submit(fmt.Sprintf("lc%c = (x, y) -> [%s]", 'a'+i, strings.Join(el, ", ")), "", 0, false) {
+			goto done
+		}
+	}
 	// seed values
 	if submit(fresh()+" = [10, 20, 30, 40]", "zaa", 'a', false) || submit(fresh()+" = \"abcdef\"", "zba", 's', false) {
 		goto done
@@ -233,8 +256,13 @@ func (C10) Run(tp *tape.Tape) core.Result {
 				}
 				r.Inc("literal_function_called", 1)
 			case 7, 8: // array literal with constant prefix and computed tail, evaluated repeatedly
-				fn := []string{"mkl", "mkn"}[tp.Draw(2)]
-				if submit(fmt.Sprintf("%s = %s(%d)", v, fn, 3000+i), v, 'a', false) {
+				fn := []string{"mkl", "mkn", "lc", "lc", "lc"}[tp.Draw(5)]
+				call := fmt.Sprintf("%s(%d)", fn, 3000+i)
+				if fn == "lc" {
+					fn = "lc" + string(rune('a'+tp.Draw(3)))
+					call = fmt.Sprintf("%s(%d, %d)", fn, 3000+i, 5000+i)
+				}
+				if submit(fmt.Sprintf("%s = %s", v, call), v, 'a', false) {
 					goto done
 				}
 				shared = true
